@@ -1,6 +1,7 @@
 # Copyright (c) QuantCo and pydiverse contributors 2025-2025
 # SPDX-License-Identifier: BSD-3-Clause
 
+import itertools
 import random
 import uuid
 from collections.abc import Iterable
@@ -134,6 +135,14 @@ def compile_col_expr(
     elif isinstance(expr, ColFn):
         impl = PolarsImpl.get_impl(expr.op, tuple(arg.dtype() for arg in expr.args))
         args: list[pl.Expr] = [compile_col_expr(arg, name_in_df, op_kwargs=op_kwargs) for arg in expr.args]
+        # the implicit conversion Int -> Float (e.g. `floor` / `ceil` of an integer column have type Float)
+        params = expr.op.trie.best_match(tuple(arg.dtype() for arg in expr.args))[0]
+        args = [
+            compiled.cast(pl.Float64())
+            if types.without_const(param).is_float() and types.without_const(arg.dtype()).is_int() and not types.is_const(param)
+            else compiled
+            for compiled, arg, param in zip(args, expr.args, itertools.chain(params, itertools.repeat(params[-1])), strict=False)
+        ] if params else args
 
         if (partition_by := expr.context_kwargs.get("partition_by")) is not None:
             partition_by = [compile_col_expr(pb, name_in_df, op_kwargs=op_kwargs) for pb in partition_by]
